@@ -1,5 +1,6 @@
 import RichModel.Lemmas.TextCut
 import RichModel.Lemmas.WrapTabs
+import RichModel.Lemmas.TextTabs
 /-!
 Histories over the full operation set: the operations of `TextHistory.Op` plus `rstrip`, `truncate`,
 `align`, `join` (as separator and as element), `assemble`, `divide`, slicing, single-character `split`
@@ -21,6 +22,9 @@ inductive OpX (σ : Type) where
   | slice (a b : Option Int)                                      -- `t[a:b]`
   | split (d : Char) (pick : Nat)                                 -- `t.split(d, include_separator=True)[pick]`
   | expandTabs (ts : Nat)                                         -- `t.expand_tabs(ts)`
+  | removeSuffix (suffix : List Char)                             -- `t.remove_suffix(suffix)`
+  | addStr (s : List Char)                                        -- `t + str`
+  | addText (u : Text σ)                                          -- `t + Text`
 
 def pickLine (r : Except PyErr (List (Text σ))) (k : Nat) : Except PyErr (Text σ) :=
   match r with
@@ -41,6 +45,9 @@ def stepX [BEq σ] (cw : Char → Nat) (null : σ) (t : Text σ) : OpX σ → Ex
   | .slice a b => t.getSlice Variant.repaired a b
   | .split d k => pickLine (t.split Variant.repaired [d] true) k
   | .expandTabs ts => t.expandTabs Variant.repaired (some ts)
+  | .removeSuffix suffix => .ok (t.removeSuffix Variant.repaired suffix)
+  | .addStr s => .ok (t.addStr Variant.repaired s)
+  | .addText u => .ok (t.addText Variant.repaired u)
 
 /-- the domain of the property, per operation -/
 def OpX.Pre (t : Text σ) : OpX σ → Prop
@@ -50,7 +57,7 @@ def OpX.Pre (t : Text σ) : OpX σ → Prop
   | .joinIn sep before after => Inv sep ∧ (∀ x ∈ before, Inv x) ∧ (∀ x ∈ after, Inv x)
   | .assembleIn before after _ => (∀ p ∈ before, p.Ok) ∧ (∀ p ∈ after, p.Ok)
   | .divide offs _ => AscFrom 0 offs ∧ ∀ o ∈ offs, o ≤ t.plain.length      -- ascending offsets inside the text
-  | .slice a b => (Py.sliceIndices t.plain.length a b).1 ≤ (Py.sliceIndices t.plain.length a b).2
+  | .addText u => Inv u
   | .expandTabs ts => 0 < ts
   | _ => True
 
@@ -103,7 +110,7 @@ theorem inv_stepX [BEq σ] (cw : Char → Nat) (null : σ) (t t' : Text σ) (op 
     cases hls
     exact (hall l hl).1
   | slice a b =>
-    obtain ⟨u, hu, hinv, _⟩ := getSlice_view t a b h hp
+    obtain ⟨u, hu, hinv, _⟩ := getSlice_view_all t a b h
     simp only [stepX] at hs
     rw [hu] at hs
     cases hs; exact hinv
@@ -119,6 +126,22 @@ theorem inv_stepX [BEq σ] (cw : Char → Nat) (null : σ) (t t' : Text σ) (op 
     simp only [stepX] at hs
     rw [hQ] at hs
     cases hs; exact hinv
+  | removeSuffix suffix =>
+    cases hs
+    unfold removeSuffix
+    split
+    · exact inv_rightCrop t suffix.length h
+    · exact h
+  | addStr s =>
+    cases hs
+    unfold addStr
+    rw [copy_eq_self t h]
+    exact inv_appendStr t s none h
+  | addText u =>
+    cases hs
+    unfold addText
+    rw [copy_eq_self t h]
+    exact inv_appendT t u h hp
 
 def runX [BEq σ] (cw : Char → Nat) (null : σ) (t : Text σ) : List (OpX σ) → Except PyErr (Text σ)
   | [] => .ok t
